@@ -279,6 +279,49 @@ func (r0 rec) calc(v int) int {
 	return t + a, x
 }
 `}}},
+		// a loop header entered straight from both arms of an if/else, with an unsigned 64-bit
+		// counter whose entry values are 0 and beyond the signed range
+		Base{Name: "F", ID: "twoentryuint", Src: "func F" + sig + " {\n" + `	n := 0
+	var pos uint64
+	if a > b {
+		pos = 0x8000000000000000
+	} else {
+		pos = 0
+	}
+	for pos < uint64(b&7)*4096 {
+		n++
+		pos += 4096
+	}
+	return n, x
+}
+`, Manual: []ManualEdit{{"the else arm starts the counter at 0xC000000000000000 instead of 0 (the loop then never runs)", "func F" + sig + " {\n" + `	n := 0
+	var pos uint64
+	if a > b {
+		pos = 0x8000000000000000
+	} else {
+		pos = 0xC000000000000000
+	}
+	for pos < uint64(b&7)*4096 {
+		n++
+		pos += 4096
+	}
+	return n, x
+}
+`},
+			{"the else arm starts the counter at 4096 instead of 0", "func F" + sig + " {\n" + `	n := 0
+	var pos uint64
+	if a > b {
+		pos = 0x8000000000000000
+	} else {
+		pos = 4096
+	}
+	for pos < uint64(b&7)*4096 {
+		n++
+		pos += 4096
+	}
+	return n, x
+}
+`}}},
 		Base{Name: "F", ID: "xpkgsamename", Src: "func F" + sig + ` {
 	n := utf8.RuneLen(rune(a) + 0x20AC)
 	return n*10 + b, x
